@@ -22,14 +22,14 @@ PINS = [
 ]
 
 
-def run_actor_check(ck, prop_file, focus, nontrivial, rule, assumptions):
+def run_actor_check(ck, prop_file, focus, nontrivial, rule, assumptions, extra_runs=(), extra_trusted=()):
     pid = ck.pid
     ck.proof_leg("core", prop_file)
     ok, out = V.build_model("core")
     if not ok:
         ck.log("model build failed\n" + out[-3000:])
         ck.proof["broken"].append({"file": "Extract.v", "log": out[-2000:]})
-    okh, outh = V.build_harness(["hx-ec"])
+    okh, outh = V.build_harness(["hx-ec"] + sorted({pkg for _, _, pkg, _ in extra_runs}))
     if not okh:
         ck.log("harness build failed\n" + outh[-3000:])
         ck.broken_correspondence("actor", "the executor no longer builds against /repo: " + outh[-1500:], [])
@@ -42,4 +42,6 @@ def run_actor_check(ck, prop_file, focus, nontrivial, rule, assumptions):
                 ck.correspondence("hx-actor", "actor", "hx-ec", extra_args=["--replay", f], name="actor-corpus",
                                   nontrivial=nontrivial)
         ck.correspondence("hx-actor", "actor", "hx-ec", extra_args=["focus=" + focus], nontrivial=nontrivial)
-    ck.finish(level="proof", rule=rule, trusted_base=TRUSTED, assumptions=assumptions)
+        for exe, comp, pkg, nt in extra_runs:
+            ck.correspondence(exe, comp, pkg, nontrivial=nt)
+    ck.finish(level="proof", rule=rule, trusted_base=TRUSTED + list(extra_trusted), assumptions=assumptions)
